@@ -193,10 +193,10 @@ theorem strict_case_port_insensitive (sites : List Bytes) (sni name host port : 
     site whose name is the connection's SNI":
       `∀ sites sni host k, serve true sites (some sni) host = .handler (some k) →
          ∃ site, sites[k]? = some site ∧ namesSameHost sni site`
-    is FALSE on the pinned tree (`Witness.strict_binds_routing_host_full_fails`: SNI `[secret.test]`,
-    Host `[secret.test]`): the enforcement handler compares the SNI with the raw Host when
-    SplitHostPort fails, the host matcher additionally strips one `[` / `]`.
-    It holds outside that decidable region: -/
+    is FALSE for the code as written (`Witness.strict_binds_routing_host_full_fails`: SNI
+    `[secret.test]`, Host `[secret.test]`): the enforcement handler compares the SNI with the raw
+    Host when SplitHostPort fails, the host matcher additionally strips one `[` / `]`.
+    It holds outside that decidable region (and, below, for every bracket-free SNI): -/
 theorem strict_binds_routing_host_partial (sites : List Bytes) (sni host : Bytes) (k : Nat)
     (hx : bracketTrimmed host = false)
     (hs : serve true sites (some sni) host = .handler (some k)) :
@@ -243,6 +243,56 @@ theorem client_auth_not_bypassed_partial (ps : List Policy) (sites : List Bytes)
   rw [first_match_dead_index, first_match_dead_index]
   exact firstMatchFrom_congr ⟨sni, v⟩ ⟨routingHost host, v⟩ ps 0 this rfl
 
+/-! ### … and the exclusion is discharged for every SNI a handshake can carry
+
+On the pinned tree a TLS connection whose SNI contains `[` or `]` cannot be established
+(certmagic's GetCertificate rejects the name; the harness checks this end to end with real
+handshakes).  For bracket-free SNIs the three `_partial` theorems hold without exclusion. -/
+
+/-- a bracket-free SNI that passes the strict check forces the Host out of the excluded region -/
+theorem strict_pass_not_bracketTrimmed (sites : List Bytes) (sni host : Bytes) (site : Option Nat)
+    (hsni : noBrackets sni = true)
+    (hs : serve true sites (some sni) host = .handler site) : bracketTrimmed host = false := by
+  cases hb : bracketTrimmed host with
+  | false => rfl
+  | true =>
+    exfalso
+    obtain ⟨h1, h2⟩ := bracketTrimmed_shape host hb
+    by_cases hm : serve true sites (some sni) host = .misdirected
+    · rw [hm] at hs; cases hs
+    · rw [strict_421, h1] at hm
+      have := noBrackets_of_fold sni host (Classical.not_not.mp hm) h2
+      rw [hsni] at this; cases this
+
+/-- **strict SNI-Host binds the routed site to the SNI** (every SNI without brackets) -/
+theorem strict_binds_routing_host (sites : List Bytes) (sni host : Bytes) (k : Nat)
+    (hsni : noBrackets sni = true)
+    (hs : serve true sites (some sni) host = .handler (some k)) :
+    ∃ site, sites[k]? = some site ∧ namesSameHost sni site :=
+  strict_binds_routing_host_partial sites sni host k
+    (strict_pass_not_bracketTrimmed sites sni host _ hsni hs) hs
+
+theorem strict_binds_catch_all (sites : List Bytes) (sni host : Bytes) (site : Option Nat)
+    (hsni : noBrackets sni = true)
+    (hs : serve true sites (some sni) host = .handler site) :
+    namesSameHost sni (routingHost host) :=
+  strict_binds_catch_all_partial sites sni host site
+    (strict_pass_not_bracketTrimmed sites sni host _ hsni hs) hs
+
+/-- **no bypass** (every SNI without brackets) -/
+theorem client_auth_not_bypassed (ps : List Policy) (sites : List Bytes) (sni host : Bytes)
+    (v : Nat → Bool) (site : Option Nat)
+    (hauth : ∃ p ∈ ps, p.clientAuth = true)
+    (hsni : noBrackets sni = true)
+    (hs : serve (effectiveStrict none ps) sites (some sni) host = .handler site) :
+    choose false ps ⟨sni, v⟩ = choose false ps ⟨routingHost host, v⟩ := by
+  have hstrict : effectiveStrict none ps = true :=
+    (strict_auto_enabled_iff none ps).mpr (Or.inr ⟨rfl, hauth⟩)
+  have hs' := hs
+  rw [hstrict] at hs'
+  exact client_auth_not_bypassed_partial ps sites sni host v site hauth
+    (strict_pass_not_bracketTrimmed sites sni host site hsni hs') hs
+
 /-! ## non-vacuity: concrete, kernel-evaluated instances of the hypotheses -/
 
 /-- names used below -/
@@ -280,6 +330,7 @@ example : effectiveStrict none exPolicies = true ∧ effectiveStrict (some false
 example : serve true [nA, nB] (some nA) (nB.map (· - 32) ++ cColon :: [52, 52, 51]) = .misdirected := by decide
 example : serve true [nA, nB] (some nA) (nAup ++ cColon :: [52, 52, 51]) = .handler (some 0) := by decide
 example : noSpecial nAup = true ∧ noSpecial [52, 52, 51] = true ∧ lower nAup = lower nA := by decide
+example : noBrackets nAup = true ∧ noBrackets [91, 97, 93] = false := by decide
 example : bracketTrimmed (nAup ++ cColon :: [52, 52, 51]) = false ∧ bracketTrimmed [91, 58, 58, 49, 93, 58, 56, 48] = false := by decide
 -- the no-bypass hypothesis set is inhabited
 example : (∃ p ∈ exPolicies, p.clientAuth = true) ∧
